@@ -46,6 +46,8 @@ fn depends(e: &Expression, s: &Set) -> bool {
 #[derive(Default, Debug, Clone)]
 pub struct Explored {
     pub sink: Option<(String, Vec<String>)>,
+    /// kind of the first sink found (coverage statistics)
+    pub sink_kind: &'static str,
     pub memory_flow: bool,
     pub union_at_block_end: BTreeMap<usize, Set>,
     pub states: u64,
@@ -120,8 +122,9 @@ pub fn has_internal_caller(project: &Project, f: &Tid) -> bool {
     project.program.term.subs.values().any(|s| s.term.blocks.iter().any(|b| b.term.jmps.iter().any(|j| matches!(&j.term, Jmp::Call { target, return_: Some(_) } if target == f))))
 }
 
-fn mark_sink(out: &mut Explored, at: &Tid, nodes: &[(usize, usize)], blocks: &[Term<Blk>], node: usize) {
+fn mark_sink(out: &mut Explored, kind: &'static str, at: &Tid, nodes: &[(usize, usize)], blocks: &[Term<Blk>], node: usize) {
     if out.sink.is_none() {
+        out.sink_kind = kind;
         let mut path = Vec::new();
         let mut n = node;
         loop {
@@ -184,13 +187,13 @@ pub fn explore(project: &Project, conv: &Conv, src: &Source, mode: Mode, union: 
                 }
                 Def::Load { var, address } => {
                     if depends(address, &s) {
-                        mark_sink(&mut out, &d.tid, &nodes, blocks, node);
+                        mark_sink(&mut out, "load", &d.tid, &nodes, blocks, node);
                     }
                     s.remove(&var.name);
                 }
                 Def::Store { address, value } => {
                     if depends(address, &s) {
-                        mark_sink(&mut out, &d.tid, &nodes, blocks, node);
+                        mark_sink(&mut out, "store", &d.tid, &nodes, blocks, node);
                     }
                     if depends(value, &s) {
                         out.memory_flow = true;
@@ -224,7 +227,7 @@ pub fn explore(project: &Project, conv: &Conv, src: &Source, mode: Mode, union: 
                 }
                 Jmp::Return(_) => {
                     if returns_to_caller && conv.returns.iter().any(|r| s.contains(r)) {
-                        mark_sink(&mut out, &j.tid, &nodes, blocks, node);
+                        mark_sink(&mut out, "return to caller", &j.tid, &nodes, blocks, node);
                     }
                 }
                 Jmp::Call { target, return_ } => {
@@ -232,12 +235,12 @@ pub fn explore(project: &Project, conv: &Conv, src: &Source, mode: Mode, union: 
                     if let Some(sym) = project.program.term.extern_symbols.get(target) {
                         let hit = sym.parameters.iter().any(|p| matches!(p, Arg::Register { expr, .. } if depends(expr, &s)));
                         if hit {
-                            mark_sink(&mut out, &j.tid, &nodes, blocks, node);
+                            mark_sink(&mut out, "library call parameter", &j.tid, &nodes, blocks, node);
                         }
                         continues = !sym.no_return;
                     } else {
                         if conv.params.iter().any(|p| s.contains(p)) {
-                            mark_sink(&mut out, &j.tid, &nodes, blocks, node);
+                            mark_sink(&mut out, "internal call parameter register", &j.tid, &nodes, blocks, node);
                         }
                         if let Some(callee) = project.program.term.subs.get(target) {
                             continues = may_return(callee);
@@ -251,7 +254,7 @@ pub fn explore(project: &Project, conv: &Conv, src: &Source, mode: Mode, union: 
                 }
                 Jmp::CallInd { return_, .. } => {
                     if conv.params.iter().any(|p| s.contains(p)) {
-                        mark_sink(&mut out, &j.tid, &nodes, blocks, node);
+                        mark_sink(&mut out, "indirect call parameter register", &j.tid, &nodes, blocks, node);
                     }
                     if let Some(r) = return_ {
                         push(&mut nodes, &mut visited, &mut queue, node, r, after_call(&s));
@@ -270,15 +273,16 @@ pub struct Verdict {
     pub p: bool,
     pub l: bool,
     pub p_witness: Option<(String, Vec<String>)>,
+    pub p_sink_kind: &'static str,
     pub states: u64,
 }
 
 pub fn judge_source(project: &Project, conv: &Conv, src: &Source) -> Verdict {
     let max = explore(project, conv, src, Mode::Max, None);
     if max.memory_flow {
-        return Verdict { out_of_scope: true, p: false, l: false, p_witness: None, states: max.states };
+        return Verdict { out_of_scope: true, p: false, l: false, p_witness: None, p_sink_kind: "", states: max.states };
     }
     let p = explore(project, conv, src, Mode::P, None);
     let l = explore(project, conv, src, Mode::L, Some(&p.union_at_block_end));
-    Verdict { out_of_scope: false, p: p.sink.is_some(), l: l.sink.is_some(), p_witness: p.sink.clone(), states: max.states + p.states + l.states }
+    Verdict { out_of_scope: false, p: p.sink.is_some(), l: l.sink.is_some(), p_witness: p.sink.clone(), p_sink_kind: p.sink_kind, states: max.states + p.states + l.states }
 }
